@@ -4,7 +4,8 @@ Rec_ == ndJsonDeserialize(IOEnv.TRACE)
 VARIABLE l
 TraceInit == Init /\ l = 1
 Reset ==
-  /\ ocount' = 0 /\ owakes' = 0 /\ inPoll' = FALSE /\ touched' = 0 /\ seen' = -1
+  /\ ocount' = [o \in Orig |-> 0] /\ owakes' = [o \in Orig |-> 0] /\ cur' = CHOOSE o \in Orig : TRUE
+  /\ inPoll' = FALSE /\ touched' = 0 /\ seen' = -1
   /\ rec' = [r \in Rec |-> NoRec]
   /\ fw' = [w \in FW |-> [r |-> 0, own |-> 1]]
 TraceNext ==
@@ -12,7 +13,7 @@ TraceNext ==
   /\ l' = l + 1
   /\ LET e == Rec_[l] IN
        IF e.op = "reset" THEN Reset
-       ELSE IF e.op = "quiescent" THEN e.ok /\ ocount = 0 /\ UNCHANGED vars
+       ELSE IF e.op = "quiescent" THEN e.ok /\ (\A o \in Orig : ocount[o] = 0) /\ UNCHANGED vars
        ELSE Do(e) /\ Proj' = e.proj
 TraceSpec == TraceInit /\ [][TraceNext]_<<vars, l>>
 TraceAccepted ==
